@@ -32,6 +32,27 @@ def parseTy (s : String) : Option ChunkType := do
   let b ← ofHex s
   ChunkType.ofBytes? b
 
+def parseChunk (s : String) : Option Chunk :=
+  match s.splitOn ":" with
+  | [t, d] => do
+    let ty ← parseTy t
+    let data ← ofHex d
+    pure ⟨ty, data⟩
+  | _ => none
+
+/-- chunk list on the wire: `ty:data,ty:data,…` or `-` for the empty list -/
+def parseChunks (s : String) : Option (List Chunk) :=
+  if s == "-" then some [] else (s.splitOn ",").mapM parseChunk
+
+def chunkListS (cs : List Chunk) : String := s!"{cs.length}/{Canon.digest (cs.flatMap Chunk.encode)}"
+
+def permLine (p : Permission) : String := s!"{p.uid},{toHexW p.uname},{p.gid},{toHexW p.gname},{p.mode}"
+
+def withHex (h : String) (f : Bytes → String) : String :=
+  match ofHex h with
+  | some b => f b
+  | none => "bad-op"
+
 def handle (line : String) : String :=
   match line.trimAscii.toString.splitOn " " with
   | ["crc", h] =>
@@ -57,6 +78,42 @@ def handle (line : String) : String :=
   | ["chunks.slice", h] =>
     match ofHex h with
     | some b => let (cs, o) := chunksSlice b; chunksDigest cs ++ " " ++ endS o
+    | none => "bad-op"
+  | ["ahed.dec", h] => withHex h fun b => outcomeS (fun a => s!"{a.major}.{a.minor}.{a.number}") (decAHED b)
+  | ["ahed.enc", a, b, c] =>
+    match a.toNat?, b.toNat?, c.toNat? with
+    | some a, some b, some c => "ok " ++ toHex (encAHED ⟨a, b, c⟩)
+    | _, _, _ => "bad-op"
+  | ["fhed.dec", h] => withHex h fun b =>
+      outcomeS (fun a => s!"{a.major}.{a.minor}.{a.kind}.{a.compression}.{a.encryption}.{a.cipherMode}:{toHexW a.name}") (decFHED b)
+  | ["fhed.reenc", h] => withHex h fun b => outcomeS (fun a => toHex (encFHED a)) (decFHED b)
+  | ["shed.dec", h] => withHex h fun b =>
+      outcomeS (fun a => s!"{a.major}.{a.minor}.{a.compression}.{a.encryption}.{a.cipherMode}") (decSHED b)
+  | ["shed.reenc", h] => withHex h fun b => outcomeS (fun a => toHex (encSHED a)) (decSHED b)
+  | ["fprm.dec", h] => withHex h fun b => outcomeS permLine (decFPRM b)
+  | ["fprm.enc", uid, un, gid, gn, mode] =>
+    match uid.toNat?, ofHex un, gid.toNat?, ofHex gn, mode.toNat? with
+    | some uid, some un, some gid, some gn, some mode => "ok " ++ toHex (encFPRM ⟨uid, un, gid, gn, mode⟩)
+    | _, _, _, _, _ => "bad-op"
+  | ["xatr.dec", h] => withHex h fun b => outcomeS (fun x => s!"{toHexW x.name}:{toHexW x.value}") (decXATR b)
+  | ["xatr.enc", n, v] =>
+    match ofHex n, ofHex v with
+    | some n, some v => "ok " ++ toHex (encXATR ⟨n, v⟩)
+    | _, _ => "bad-op"
+  | ["name.sanitize", h] => withHex h fun b => "ok " ++ toHexW (sanitize b)
+  | ["ref.normalize", h] => withHex h fun b => "ok " ++ toHexW (normalizeRef b)
+  | ["utf8", h] => withHex h fun b => if validUtf8 b then "ok 1" else "ok 0"
+  | ["entry.parse", cs] =>
+    match parseChunks cs with
+    | some cs => outcomeS Canon.entryS (parseEntry cs)
+    | none => "bad-op"
+  | ["entry.reser", cs] =>
+    match parseChunks cs with
+    | some cs => outcomeS (fun e => chunkListS (serEntry e)) (parseEntry cs)
+    | none => "bad-op"
+  | ["entry.reser2", cs] =>
+    match parseChunks cs with
+    | some cs => outcomeS (fun e => chunkListS (serEntry e)) ((parseEntry cs).bind fun e => parseEntry (serEntry e))
     | none => "bad-op"
   | ["archive.read.stream", h] =>
     match ofHex h with
